@@ -68,6 +68,34 @@ type knownFinding struct {
 	Status    string `json:"status"` // known | fixed
 	What      string `json:"what"`
 	Commit    string `json:"commit,omitempty"`
+	// Also lists further signature patterns of the same root cause. Patterns may contain '*'
+	// (any sequence of characters).
+	Also []string `json:"also,omitempty"`
+}
+
+// glob matches s against a pattern in which '*' stands for any sequence of characters.
+func glob(pat, s string) bool {
+	for len(pat) > 0 {
+		if pat[0] == '*' {
+			for len(pat) > 0 && pat[0] == '*' {
+				pat = pat[1:]
+			}
+			if len(pat) == 0 {
+				return true
+			}
+			for i := 0; i <= len(s); i++ {
+				if glob(pat, s[i:]) {
+					return true
+				}
+			}
+			return false
+		}
+		if len(s) == 0 || pat[0] != s[0] {
+			return false
+		}
+		pat, s = pat[1:], s[1:]
+	}
+	return len(s) == 0
 }
 
 type propMeta struct {
@@ -338,15 +366,31 @@ func runCheck(prop, tier, only string, budgetOverride time.Duration) int {
 			die("known_findings.json: %v", err)
 		}
 	}
-	known := map[string]knownFinding{}
+	var knownPats []knownFinding
 	for _, k := range kf.Findings {
 		if k.Property == prop && k.Status == "known" {
-			known[k.Signature] = k
+			knownPats = append(knownPats, k)
 		}
+	}
+	lookup := func(sig string) (knownFinding, bool) {
+		for _, k := range knownPats {
+			if glob(k.Signature, sig) {
+				return k, true
+			}
+			for _, p := range k.Also {
+				if glob(p, sig) {
+					return k, true
+				}
+			}
+		}
+		return knownFinding{}, false
 	}
 	sort.Slice(m.Violations, func(i, j int) bool {
 		if m.Violations[i].Sig != m.Violations[j].Sig {
 			return m.Violations[i].Sig < m.Violations[j].Sig
+		}
+		if len(m.Violations[i].Scenario) != len(m.Violations[j].Scenario) {
+			return len(m.Violations[i].Scenario) < len(m.Violations[j].Scenario)
 		}
 		return m.Violations[i].Scenario < m.Violations[j].Scenario
 	})
@@ -354,10 +398,10 @@ func runCheck(prop, tier, only string, budgetOverride time.Duration) int {
 	printed := map[string]bool{}
 	nviol := 0
 	for _, v := range m.Violations {
-		if k, ok := known[v.Sig]; ok {
-			seenKnown[v.Sig]++
-			if !printed[v.Sig] {
-				printed[v.Sig] = true
+		if k, ok := lookup(v.Sig); ok {
+			seenKnown[k.Signature]++
+			if !printed["known:"+k.Signature] {
+				printed["known:"+k.Signature] = true
 				fmt.Printf("KNOWN-FINDING: property=%s %s [%s] e.g. %s replay=%s\n", prop, k.What, v.Sig, v.Scenario, v.Replay)
 			}
 			continue
